@@ -363,3 +363,25 @@ func Verif_C01_real_binary_grid() {
 	verifrt.Assert(ok, "output parses as exactly one object")
 	verifrt.Assert(verifEqual(x, got), "real round trip")
 }
+
+// Verif_C01_real_rationals: reals with full-precision decimal expansions
+// (p/q for small p and q, optionally scaled), concrete per path.
+func Verif_C01_real_rationals() {
+	qs := []float64{3, 7, 9, 11, 13, 17, 19, 23, 29, 31}
+	p := float64(1 + verifrt.Len("p", 0, 39))
+	v := p / qs[verifrt.Choice("q", len(qs))]
+	if verifrt.Choice("scaled", 2) == 1 {
+		v *= 61.5
+	}
+	if verifrt.Choice("negative", 2) == 1 {
+		v = -v
+	}
+	x := Real(v)
+	var buf bytes.Buffer
+	err := Format(&buf, 0, x)
+	verifrt.Assert(err == nil, "format succeeds")
+	got, ok := verifParseFrom(bytes.NewReader(buf.Bytes()))
+	verifrt.Cover("parsed")
+	verifrt.Assert(ok, "output parses as exactly one object")
+	verifrt.Assert(verifEqual(x, got), "real round trip")
+}
